@@ -564,3 +564,119 @@ func (a *c05) checkStopContext() {
 		"every call of the context's cancel is dominated by the job counter's Wait()",
 		"the context returned by Stop can complete while a started job is still running: "+why)
 }
+
+// checkWaitAfterHandoff (S3-wait-after-stop): the wait whose end completes the
+// context Stop returns must BEGIN after the scheduler has taken the stop
+// request (or with the running flag read false): a Wait started earlier can
+// see a zero counter and complete the context while the scheduler, not yet
+// stopped, starts another job. Decided on the flow from the exported methods
+// that send the stop request: at every point where such a method starts the
+// wait (the go statement whose goroutine reaches jobWaiter.Wait(), or a
+// synchronous Wait), the stop request has been sent or running was read false.
+func (a *c05) checkWaitAfterHandoff() {
+	r := a.r
+	const sent, notRunning = 1, 2
+	f := &c05Flow{a: a, G: 4}
+	f.Tracked = func(v ssa.Value) bool { return a.isRunningLoad(v) }
+	isStopSend := func(in ssa.Instruction) bool {
+		switch x := in.(type) {
+		case *ssa.Send:
+			fl, ok := a.chanFieldOf(x.Chan)
+			return ok && fl == a.fStop
+		case *ssa.Select:
+			for _, st := range x.States {
+				if st.Dir == types.SendOnly {
+					if fl, ok := a.chanFieldOf(st.Chan); ok && fl == a.fStop {
+						return true
+					}
+				}
+			}
+		}
+		return false
+	}
+	f.Step = func(in ssa.Instruction, g int) (int, bool) {
+		if isStopSend(in) {
+			return g | sent, false
+		}
+		return g, false
+	}
+	f.Cond = func(at ssa.Instruction, v ssa.Value, tv bool, g int) int {
+		if a.isRunningLoad(v) && !tv && a.mutexHeldAt(v.(ssa.Instruction)) {
+			return g | notRunning
+		}
+		return g
+	}
+	f.Run(nil)
+	// functions from which a Wait on the job counter is reached through calls
+	waits := map[*ssa.Function]bool{}
+	for _, fn := range a.funcs {
+		allInstrs(fn, func(in ssa.Instruction) {
+			if call, ok := in.(*ssa.Call); ok && a.wgCall(call, "Wait") {
+				waits[fn] = true
+			}
+		})
+	}
+	reachesWait := func(fn *ssa.Function) bool {
+		for h := range a.reachFrom(fn, false) {
+			if waits[h] {
+				return true
+			}
+		}
+		return false
+	}
+	// the exported methods that hand the stop request over
+	n := 0
+	for _, root := range a.funcs {
+		if !isExportedFunc(root) {
+			continue
+		}
+		sends := false
+		scope := a.reachFrom(root, false)
+		for h := range scope {
+			allInstrs(h, func(in ssa.Instruction) {
+				if isStopSend(in) {
+					sends = true
+				}
+			})
+		}
+		if !sends {
+			continue
+		}
+		why := ""
+		for h := range scope {
+			allInstrs(h, func(in ssa.Instruction) {
+				starts := false
+				switch x := in.(type) {
+				case *ssa.Go:
+					for _, t := range a.calleesOf(x) {
+						if reachesWait(t) {
+							starts = true
+						}
+					}
+				case *ssa.Call:
+					starts = a.wgCall(x, "Wait")
+				}
+				if !starts {
+					return
+				}
+				ok, reached := f.All(in, func(g int) bool { return g&(sent|notRunning) != 0 })
+				if !reached {
+					return
+				}
+				n++
+				if !ok {
+					why = "the wait for the jobs is started at " + a.pos(in) + " on a path where the stop request has not yet been handed to the scheduler (and the running flag was not read false)"
+				}
+			})
+		}
+		if n == 0 {
+			continue
+		}
+		r.Check(why == "", "C05.S3-wait-after-stop", a.name(root)+": job wait begins after the stop hand-off", a.p.Pos(root.Pos()),
+			"every start of the wait on the job counter follows the send of the stop request (or a read of running==false under the mutex)",
+			why+": Wait can observe a zero counter and the returned context completes while the scheduler — not stopped yet — starts a job that is then still running although the context is Done")
+	}
+	if n == 0 {
+		r.Undecide("C05.S3-wait-after-stop: no start of a wait on the job counter is reached from the method that sends the stop request")
+	}
+}
